@@ -289,6 +289,8 @@ impl<'a> Probe<'a> {
 const ALPHABET: [&str; 30] = [
     "A", "K", "Q", "J", "T", "9", "8", "7", "6", "5", "4", "3", "2", "s", "h", "d", "c", "o", "+", "-", ":", ".", ",", "0", "1", " ", "é", "♠", "😀", "\0",
 ];
+/// letters of the notation in the other case
+const OTHER_CASE: [&str; 10] = ["a", "k", "q", "j", "t", "S", "H", "D", "C", "O"];
 const MULTIBYTE: [&str; 3] = ["é", "♠", "😀"];
 
 fn nth_string(mut index: u64, len: usize) -> String {
@@ -363,6 +365,10 @@ enum Job {
     Named,
     /// well-formed tokens, bare and with weights, as tokens and inside lists
     ValidTokens { lo: usize, hi: usize },
+    /// shape strings and tokens with some letters in the other case
+    CaseVariants { lo: usize, hi: usize },
+    /// very long lists of the widest tokens, and weight literals of hundreds of digits
+    Extremes,
 }
 
 const NAMED: [&str; 40] = [
@@ -533,6 +539,82 @@ fn run_job(job: &Job, which: Which, seed: u64, t: &Tables, report: &mut Report, 
                     probe.run(&list.join(","), true);
                     probe.report.count("well_formed_tokens_probed", (*hi - *lo) as u64);
                 }
+                Job::CaseVariants { lo, hi } => {
+                    let mut rng = Rng::derive(seed, "c09-case", *lo as u64);
+                    let flip = |c: char, rng: &mut Rng| -> char {
+                        if rng.chance(1, 2) {
+                            if c.is_ascii_uppercase() {
+                                c.to_ascii_lowercase()
+                            } else {
+                                c.to_ascii_uppercase()
+                            }
+                        } else {
+                            c
+                        }
+                    };
+                    let mut n = 0u64;
+                    for t in &tokens[*lo..*hi] {
+                        for text in [t.text(), format!("{}:0.5", t.text())] {
+                            for _ in 0..2 {
+                                let v: String = text.chars().map(|c| flip(c, &mut rng)).collect();
+                                if v != text {
+                                    probe.run(&v, false);
+                                    probe.report.note_distinct(hash_str(&v));
+                                    n += 1;
+                                }
+                            }
+                        }
+                    }
+                    // every rank pair spelled with one rank letter in both cases (pocket/suited/offsuit shapes)
+                    if *lo == 0 {
+                        for r in ["A", "K", "Q", "J", "T"] {
+                            let l = r.to_lowercase();
+                            for tail in ["", "s", "o", "+", "s+", "o+", "s:0.5"] {
+                                for v in [format!("{}{}{}", r, l, tail), format!("{}{}{}", l, r, tail), format!("{}{}{}", l, l, tail)] {
+                                    probe.run(&v, false);
+                                    n += 1;
+                                }
+                            }
+                        }
+                        for a in OTHER_CASE {
+                            for b in ALPHABET.iter().chain(OTHER_CASE.iter()) {
+                                for c in ["", "s", "o", "+"] {
+                                    probe.run(&format!("{}{}{}", a, b, c), false);
+                                    probe.run(&format!("{}{}{}", b, a, c), false);
+                                    n += 2;
+                                }
+                            }
+                        }
+                    }
+                    probe.report.count("strings_with_letters_in_the_other_case", n);
+                }
+                Job::Extremes => {
+                    // lists expanding to far more than 65536 entries
+                    for (tok, times) in [("A2o+:0.5", 460usize), ("22+", 900), ("A2o+", 1200), ("K2o+:0.25", 700)] {
+                        let s = vec![tok; times].join(",");
+                        probe.run(&s, false);
+                    }
+                    let mut rng = Rng::derive(seed, "c09-extremes", 0);
+                    let wide: Vec<String> = (0..1500).map(|_| ["22+", "A2o+", "K2o+", "Q2o+", "A2s+", "J2o+:0.5", "T2o+:0.1"][rng.usize_below(7)].to_string()).collect();
+                    probe.run(&wide.join(","), false);
+                    // weight literals of hundreds and thousands of digits
+                    for digits in [19usize, 20, 21, 39, 40, 100, 308, 309, 310, 400, 1100, 5000] {
+                        for (lead, d) in [("0", '9'), ("0", '0'), ("0", '5'), ("1", '0'), ("0", '1')] {
+                            let lit: String = std::iter::repeat(d).take(digits).collect();
+                            for body in ["AA", "AKs+", "TT-77", "AhKd"] {
+                                let s = format!("{}:{}.{}", body, lead, lit);
+                                probe.run(&s, false);
+                                probe.report.note_distinct(hash_str(&s));
+                            }
+                        }
+                        // ...ending in a non-zero digit after many zeros, and random digits
+                        let zeros: String = std::iter::repeat('0').take(digits).collect();
+                        probe.run(&format!("AA:0.{}1", zeros), false);
+                        let random: String = (0..digits).map(|_| char::from(b'0' + rng.below(10) as u8)).collect();
+                        probe.run(&format!("QQ+:0.{}", random), false);
+                    }
+                    probe.report.count("extreme_lists_and_literals", 1);
+                }
                 Job::Long { index } => {
                     let mut rng = Rng::derive(seed, "c09-long", *index);
                     let target = if *index == 0 { 8 << 20 } else { 1 + rng.usize_below(64 << 10) };
@@ -564,7 +646,14 @@ pub fn run(ctx: &Ctx, which: Which) -> Report {
     let shapes = shape_strings();
     let literals = weight_literals();
     let tokens = all_well_formed_tokens();
-    let mut jobs: Vec<Job> = vec![Job::Named, Job::CardPairs];
+    let mut jobs: Vec<Job> = vec![Job::Named, Job::CardPairs, Job::Extremes];
+    {
+        let mut lo = 0;
+        while lo < tokens.len() {
+            jobs.push(Job::CaseVariants { lo, hi: (lo + 60).min(tokens.len()) });
+            lo += if thorough { 60 } else { 240 };
+        }
+    }
     match which {
         Which::C09 => {
             let max_len = if thorough { 4 } else { 3 };
@@ -688,22 +777,26 @@ pub fn run(ctx: &Ctx, which: Which) -> Report {
 /// replacements, random strings and lists, and every well-formed token bare and weighted. Shard `part`.
 fn dev_batch(which: Which, seed: u64, part: usize, parts: usize) -> Report {
     let tables = Tables { shapes: shape_strings(), literals: weight_literals(), tokens: all_well_formed_tokens() };
-    let mut jobs: Vec<Job> = vec![Job::Named, Job::CardPairs];
+    let mut jobs: Vec<Job> = vec![Job::Named, Job::CardPairs, Job::Extremes, Job::CaseVariants { lo: 0, hi: 30 }];
     for len in 0..=2usize {
         jobs.push(Job::Short { len, lo: 0, hi: 30u64.pow(len as u32) });
     }
+    // C10's invariants do not depend on the build profile the way panics do: its dev batch stays small
+    let full = which == Which::C09;
     let mut lo = 0;
     while lo < tables.shapes.len() {
         jobs.push(Job::Shapes { lo, hi: (lo + 150).min(tables.shapes.len()), weights: true });
-        lo += 150 * 30; // one slice in thirty
+        lo += 150 * if full { 30 } else { 120 };
     }
     let mut lo = 0;
     while lo < tables.tokens.len() {
-        jobs.push(Job::Multibyte { lo, hi: (lo + 10).min(tables.tokens.len()) });
-        jobs.push(Job::ValidTokens { lo, hi: (lo + 40).min(tables.tokens.len()) });
+        if full {
+            jobs.push(Job::Multibyte { lo, hi: (lo + 10).min(tables.tokens.len()) });
+        }
+        jobs.push(Job::ValidTokens { lo, hi: (lo + if full { 40 } else { 8 }).min(tables.tokens.len()) });
         lo += 40;
     }
-    for i in 0..12 {
+    for i in 0..if full { 12 } else { 3 } {
         jobs.push(Job::Random { n: 100, index: 5_000 + i });
         jobs.push(Job::Lists { n: 40, index: 5_000 + i });
     }
